@@ -2676,6 +2676,9 @@ class SampleAuxiliaryInformationOffsetsBox(FullBox):
         if senc is None:
             return
         pos = self.find_first_cenc_sample()
+        if pos is None:
+            # the senc box has no samples: there is nothing to point at
+            return
         if self.offsets is None or pos != self.offsets[0]:
             if self.options.has_bug('saio'):
                 return
